@@ -583,23 +583,24 @@ End Theorems.
 
 (** ** the one-pass table [locs] is the index-based definition [spec_loc] *)
 Lemma last_start_le s j : (last_start s j <= j)%nat.
-Proof. induction j; simpl; [lia|]. destruct (line_start s (S j)); lia. Qed.
+Proof. induction j; cbn [last_start]; [lia|]. destruct (line_start s (S j)); lia. Qed.
 
 Lemma line_start_step p c r :
   line_start (p ++ c :: r) (S (length p)) =
   ((c =? 10) || ((c =? 13) && negb (match r with 10 :: _ => true | _ => false end))).
 Proof.
   unfold line_start, nth_c.
-  rewrite nth_error_app2 by lia. replace (length p - length p)%nat with O by lia. simpl.
-  assert (E : nth_error (p ++ c :: r) (S (length p)) = nth_error r 0).
+  assert (E1 : nth_error (p ++ c :: r) (length p) = Some c).
+  { rewrite nth_error_app2 by lia. replace (length p - length p)%nat with O by lia. reflexivity. }
+  assert (E2 : nth_error (p ++ c :: r) (S (length p)) = nth_error r 0).
   { rewrite nth_error_app2 by lia. replace (S (length p) - length p)%nat with 1%nat by lia. reflexivity. }
-  rewrite E.
+  rewrite E1, E2. clear E1 E2.
   destruct (N.eqb_spec c 10) as [->|N10]; [reflexivity|].
   destruct (N.eqb_spec c 13) as [->|N13].
-  - simpl. destruct r as [|d r]; simpl; [reflexivity|].
+  - cbn [orb andb]. destruct r as [|d r]; [reflexivity|]. cbn [nth_error].
     destruct d as [|d]; [reflexivity|].
     repeat (destruct d as [d|d|]; try reflexivity).
-  - simpl. destruct c as [|q]; [reflexivity|].
+  - cbn [orb andb]. destruct c as [|q]; [reflexivity|].
     repeat (destruct q as [q|q|]; try reflexivity; try (exfalso; apply N10; reflexivity);
             try (exfalso; apply N13; reflexivity)).
 Qed.
@@ -610,21 +611,34 @@ Lemma locs_from_spec l : forall p j,
   = Some (spec_loc (p ++ l) (length p + j)).
 Proof.
   induction l as [|c r IH]; intros p j L.
-  - simpl in L. assert (j = 0)%nat by lia. subst. simpl. rewrite Nat.add_0_r. destruct (spec_loc _ _); reflexivity.
+  - simpl in L. assert (j = 0)%nat by lia. subst. rewrite Nat.add_0_r. cbn [locs_from nth_error].
+    rewrite <- surjective_pairing. reflexivity.
   - destruct j as [|j].
-    + simpl. rewrite Nat.add_0_r. destruct (spec_loc _ _); reflexivity.
+    + rewrite Nat.add_0_r. cbn [locs_from nth_error]. rewrite <- surjective_pairing. reflexivity.
     + simpl in L. specialize (IH (p ++ [c]) j ltac:(lia)).
-      rewrite <- app_assoc in IH. simpl in IH. rewrite app_length in IH. simpl in IH.
+      rewrite <- app_assoc in IH. change ([c] ++ r) with (c :: r) in IH.
+      rewrite app_length in IH. change (length [c]) with 1%nat in IH.
       replace (length p + 1 + j)%nat with (length p + S j)%nat in IH by lia.
       rewrite <- IH. clear IH.
       replace (length p + 1)%nat with (S (length p)) by lia.
-      cbn [locs_from nth_error].
-      unfold spec_loc at 3 4. cbn [count_starts last_start].
-      rewrite (line_start_step p c r).
+      set (b := (c =? 10) || ((c =? 13) && negb (match r with 10 :: _ => true | _ => false end))).
+      pose proof (line_start_step p c r) as LS. fold b in LS.
+      assert (CS : count_starts (p ++ c :: r) (S (length p)) =
+                   (if b then 1 else 0) + count_starts (p ++ c :: r) (length p)).
+      { cbn [count_starts]. rewrite LS. reflexivity. }
+      assert (LA : last_start (p ++ c :: r) (S (length p)) =
+                   if b then S (length p) else last_start (p ++ c :: r) (length p)).
+      { cbn [last_start]. rewrite LS. reflexivity. }
       pose proof (last_start_le (p ++ c :: r) (length p)) as LL.
-      destruct ((c =? 10) || _); cbn [fst snd]; unfold spec_loc; cbn [fst snd].
-      * f_equal; [f_equal; lia|]. f_equal. lia.
-      * f_equal; [f_equal; lia|]. f_equal. lia.
+      cbn [locs_from nth_error]. fold b.
+      unfold spec_loc. cbn [fst snd]. rewrite CS, LA.
+      clearbody b. destruct b.
+      * replace (S (length p) - S (length p))%nat with O by lia.
+        replace (1 + count_starts (p ++ c :: r) (length p) + 1)
+          with (1 + (1 + count_starts (p ++ c :: r) (length p))) by lia. reflexivity.
+      * replace (N.of_nat (S (length p) - last_start (p ++ c :: r) (length p)))
+          with (N.of_nat (length p - last_start (p ++ c :: r) (length p)) + 1) by lia.
+        reflexivity.
 Qed.
 
 Lemma locs_spec s j : (j <= length s)%nat -> nth_error (locs s) j = Some (spec_loc s j).
@@ -635,4 +649,24 @@ Theorem update_loc_is_spec s n : (n <= length s)%nat ->
   (line (adv_n n (init s)), col (adv_n n (init s))) = spec_loc s n.
 Proof.
   intros L. pose proof (update_loc_spec s n L) as A. pose proof (locs_spec s n L) as B. congruence.
+Qed.
+
+(** the same statements in terms of the index-based definition of the true location *)
+Lemma end_loc_is_spec s : end_loc s = spec_loc s (length s).
+Proof. rewrite end_loc_spec. apply update_loc_is_spec. lia. Qed.
+
+Theorem errors_carry_spec_loc orc s l c :
+  read_all orc s = Err (ESyntax l c) \/ read_all orc s = Err (EEof l c) ->
+  (exists n, (n <= length s)%nat /\ (l, c) = spec_loc s n) \/
+  (exists k, (l, c) = (fst (spec_loc s (length s)), snd (spec_loc s (length s)) + N.of_nat k)).
+Proof.
+  intros H. apply errors_carry_loc in H. destruct H as [(n & L & E)|(k & E1 & E2)].
+  - left. exists n. split; [exact L|]. rewrite (locs_spec s n L) in E. congruence.
+  - right. exists k. rewrite <- end_loc_is_spec. congruence.
+Qed.
+Theorem eof_only_at_end_spec orc s l c :
+  read_all orc s = Err (EEof l c) ->
+  exists k, (l, c) = (fst (spec_loc s (length s)), snd (spec_loc s (length s)) + N.of_nat k).
+Proof.
+  intros H. apply eof_only_at_end in H as (k & E1 & E2). exists k. rewrite <- end_loc_is_spec. congruence.
 Qed.
